@@ -99,6 +99,13 @@ def gen(fmts, heavy, nps):
                                 p = Prog('S-f%d-d%d-a%d-v%d-al%d-h%d-np%d' % (fmt, di, ai, vi, al_i, hi, np), np, fmt, hints, env)
                                 p.envh = envh
                                 define(p, dims, gatts, vars_)
+                                # overwrite attributes with values of a strictly smaller padded size while still in define mode
+                                if (ai + vi + hi) % 2 == 0:
+                                    for a in gatts:
+                                        if len(a[2]) * D.XT_SIZE[a[1]] > 4:
+                                            p.do(dict(op='put_att', v=-1, name=a[0], xtype=a[1], vals=a[2][:1])); break
+                                    if vars_ and p.m.vars[0]['atts']:
+                                        p.do(dict(op='put_att', v=0, name='units', xtype=D.NC_CHAR, vals=b'K'))
                                 p.do(ed); p.checkpoint('enddef')
                                 if hi >= 1:
                                     p.write_all(); p.do(dict(op='sync')); p.checkpoint('sync')
@@ -114,10 +121,12 @@ def gen(fmts, heavy, nps):
                                     n0 = vars_[0][0]
                                     if len(n0) > 1 and not any(v[0] == n0[0] for v in vars_):
                                         p.do(dict(op='rename_var', v=0, name=n0[0])); p.checkpoint('rename_var in data mode')
-                                    if gatts and len(gatts[0][2]) > 0:
-                                        a = gatts[0]
+                                    if gatts and len(p.m.gatts[0][2]) > 0:
+                                        a = p.m.gatts[0]
                                         nv = bytes(reversed(a[2])) if isinstance(a[2], bytes) else [x + 1 for x in a[2]]
                                         p.do(dict(op='put_att', v=-1, name=a[0], xtype=a[1], vals=nv)); p.checkpoint('put_att in data mode')
+                                        if len(nv) * D.XT_SIZE[a[1]] > 4:
+                                            p.do(dict(op='put_att', v=-1, name=a[0], xtype=a[1], vals=nv[:1])); p.checkpoint('smaller put_att in data mode')
                                     if dims and len(dims[0][0]) > 1:
                                         p.do(dict(op='rename_dim', d=0, name=dims[0][0][0])); p.checkpoint('rename_dim in data mode')
                                 p.do(dict(op='close')); p.checkpoint('close', closed=True)
